@@ -7,10 +7,17 @@ ids=("$@")
 for d in "${ids[@]}"; do
   p=${d%%-*}
   out=$(tools/seedrun.sh /verif/seeded/$d/patch.diff $p 2>&1)
+  # not caught inside the property's own quantifier: try the extended profiles (zero volumes, clock moved back, sentinel
+  # prices, over-full batches for C08, off-grid submissions for C10, histories with disabled periods for C01)
+  ext=""
+  if ! echo "$out" | grep "VIOLATION property=$p" | grep -qv "no-failing-input-found"; then
+    ext=$(VERIF_EXT=1 tools/seedrun.sh /verif/seeded/$d/patch.diff $p 2>&1)
+  fi
   echo "== $d"; echo "$out"
-  python3 - "$d" "$p" "$out" <<'PY'
+  [ -n "$ext" ] && { echo "-- extended:"; echo "$ext"; }
+  python3 - "$d" "$p" "$out" "$ext" <<'PY'
 import json, sys, re
-d, p, out = sys.argv[1], sys.argv[2], sys.argv[3]
+d, p, out, ext = sys.argv[1], sys.argv[2], sys.argv[3], sys.argv[4]
 f = f"/verif/seeded/{d}/meta.json"
 m = json.load(open(f))
 viol = re.findall(r"VIOLATION property=(\S+) replay=(\S+)( no-failing-input-found)?", out)
@@ -23,6 +30,13 @@ m["detection"] = {
     "how_run": f"tools/seedrun.sh seeded/{d}/patch.diff {p}  (git -C /repo apply; bin/check; git -C /repo checkout -- .)",
     "see": "DESIGN.md section 9",
 }
+if ext:
+    v2 = re.findall(r"VIOLATION property=(\S+) replay=(\S+)( no-failing-input-found)?", ext)
+    w2 = [l[2:].strip() for l in ext.split("\n") if l.startswith("# ")]
+    m["detection"]["outside_the_quantifier"] = {
+        "check": f"bin/check {p} --extended  (development mode: profiles outside the property's own quantifier)",
+        "detected": bool(v2), "with_failing_input": bool(v2) and not any(v[2] for v in v2), "reported": w2[:2],
+    }
 json.dump(m, open(f, "w"), indent=1)
 PY
 done
